@@ -46,6 +46,8 @@ type Contract struct {
 	HasMod   bool
 	Decr     *Clause
 	Loops    map[int]*LoopSpec
+	Assumes  []*Clause
+	ExitUpdates [][3]*Sx // ghost assignments at exit: comp[index] := value
 	AssertBefore []*Clause // proved just before calls to a named callee (Label = callee|label)
 	Maintains []*Clause // closure invariants over its captured cells (assumed at entry, proved at exit; carried across calls that receive the closure)
 	Impl     string   // implements <iface method key>
@@ -76,7 +78,7 @@ type ContractSet struct {
 
 var clauseKeywords = map[string]bool{
 	"func": true, "iface": true, "extern": true, "lemma": true, "cover": true,
-	"use": true, "ghost": true, "requires": true, "ensures": true, "ensures-assumed": true, "maintains": true, "assert-before": true, "modifies": true,
+	"use": true, "ghost": true, "requires": true, "ensures": true, "ensures-assumed": true, "maintains": true, "assert-before": true, "exit-update": true, "assumes": true, "modifies": true,
 	"decreases": true, "loop": true, "trusted": true, "inline": true, "noinline": true,
 	"implements": true, "tags": true, "params": true, "extra": true, "reveal": true,
 }
@@ -293,6 +295,27 @@ func (cs *ContractSet) parseFile(path string, pkgPath string, raw bool) error {
 				} else {
 					cur.Ensures = append(cur.Ensures, c)
 				}
+			case "assumes":
+				// assumed at entry of the body, NOT checked at call sites: an argument made outside the verifier (listed in the evidence)
+				label := readLabel()
+				x, err := readSx()
+				if err != nil {
+					return err
+				}
+				cur.Assumes = append(cur.Assumes, &Clause{Kind: kw, Tags: tags, Label: label, Expr: x, Src: src(at)})
+			case "exit-update":
+				// exit-update <ghost comp> <index expr> <value expr>: ghost assignment performed when the function returns
+				comp := toks[i]
+				i++
+				ix, err := readSx()
+				if err != nil {
+					return err
+				}
+				vx, err := readSx()
+				if err != nil {
+					return err
+				}
+				cur.ExitUpdates = append(cur.ExitUpdates, [3]*Sx{A(comp), ix, vx})
 			case "assert-before":
 				// assert-before[tags] <callee suffix> label: expr  -- proved just before each call to that callee
 				callee := toks[i]
